@@ -51,10 +51,13 @@ def build(rng, W, i):
     return {"S": S, "layout": layout, "plan": plan, "links": links}
 
 
+_weird_cache = {}
+
+
 def caller_map(rng, W, S):
     """returns (pairs [[id, pubjson]], keys_in_map(list of names), description, aliased?)"""
     outsiders = [k for k in OWNERS if k not in S]
-    kinds = ["exact", "exact", "exact", "subset", "superset", "disjoint", "empty", "two_ids", "wrong_id"]
+    kinds = ["exact", "exact", "exact", "subset", "superset", "disjoint", "empty", "two_ids", "wrong_id", "plus_unknown_scheme_key"]
     kind = rng.choice(kinds)
     if kind == "exact":
         M = list(S)
@@ -70,6 +73,14 @@ def caller_map(rng, W, S):
         M = list(S)
     pairs = [[W.kid(k), W.pub(k)] for k in M]
     aliased = False
+    if kind == "plus_unknown_scheme_key":
+        # an additional trusted key whose declared scheme the library does not know: it cannot have signed anything
+        if "w" not in _weird_cache:
+            _weird_cache["w"] = scen.unknown_scheme_keys(W.bin)
+        if _weird_cache["w"]:
+            wk = rng.choice(_weird_cache["w"])
+            pairs.append([wk["keyid"], wk["pub"]])
+            M = M + ["<unknown-scheme key>"]
     if kind == "two_ids" and M:
         pairs.append([OTHER_ID, W.pub(M[0])])
         aliased = True
@@ -111,7 +122,7 @@ def shard(binpath, seed, sh, n):
         desc = action
         if action == "content":
             edits = list(scen.single_edits(wire["signed"], rng, None))
-            special = [e for e in edits if e[0].startswith(("respell@", "match_prefix@"))]
+            special = [e for e in edits if e[0].startswith(("respell@", "match_prefix@", "respell_key@"))]
             if edits:
                 content_edit, newdoc = rng.choice(special) if special and rng.random() < 0.35 else rng.choice(edits)
                 wire["signed"] = newdoc
@@ -166,6 +177,8 @@ def shard(binpath, seed, sh, n):
                 sigs[j]["sig"] = bytes(b).hex()
                 broken = {name}
             desc = "sig:" + kind
+        if mapdesc == "plus_unknown_scheme_key" and len(pairs) > len(S):
+            wire["signatures"].append({"keyid": pairs[-1][0], "sig": rng.choice(["ab" * 64, "00", wire["signatures"][0]["sig"] if wire["signatures"] else "cd" * 64])})
         # ground truth
         if not pairs:
             expect, reason = "reject", "the caller supplied no trusted key"
@@ -219,6 +232,6 @@ def main(ctx):
              "dup}; non-trivial = at least one signer or one supplied key; distinct by SHA-256 of (wire layout, key map)",
         assumptions=["signature validity ground truth is by construction", "value equality for 'semantics-preserving' is the library's PartialEq"],
         required=["positive_control_accepted", "positive:ed", "positive:ec", "positive:rsa", "map:empty", "map:two_ids",
-                  "map:superset", "map:disjoint", "map:subset", "action:content:set", "action:sig:flip", "action:sig:relabel",
+                  "map:superset", "map:disjoint", "map:subset", "map:plus_unknown_scheme_key", "action:content:set", "action:sig:flip", "action:sig:relabel",
                   "action:sig:other_content", "action:sig:drop", "action:sig:resign_by_other", "expect:reject", "observed:reject"],
         min_evals=500)
